@@ -68,6 +68,14 @@ func Walk(ctx context.Context, fileSystem fs.FS, prefix, delimiter, marker strin
 		}
 	}
 
+	// a prefix that leads below a bookkeeping directory names nothing that
+	// is listed
+	for _, sd := range skipdirs {
+		if root == sd || strings.HasPrefix(root, sd+"/") {
+			return WalkResults{}, nil
+		}
+	}
+
 	err := fs.WalkDir(fileSystem, root, func(path string, d fs.DirEntry, err error) error {
 		if err != nil {
 			return err
